@@ -1,6 +1,8 @@
 """C11 — o= session id fixed, version strictly increasing (spec/Origin.tla; gates in updateSDPOrigin)."""
 import os
 import re
+import sys
+sys.path.insert(0, os.path.dirname(os.path.abspath(__file__)))
 import vlib
 
 
@@ -41,11 +43,35 @@ def run(ctx):
     bytrace = {}
     for l in lines:
         bytrace.setdefault(l["t"], []).append(l)
+    # sequential histories: the SDP family (PeerConn.tla histories, synthetic offers answered provisionally and
+    # finally, unapplied offers) under every SDPSemantics; Sdp_Trace judges session id and version of every
+    # description an endpoint generates, in order
+    import sdp_common
+    viol_sched, pr_sched = list(ctx.viol), dict(pr)
+    work = ctx.work
+    ctx.work = os.path.join(work, "seq")
+    os.makedirs(ctx.work, exist_ok=True)
+    seq = sdp_common.sdp_traces(ctx, ["default", "planb", "fallback"], 90, 2000, ["SeqSameSessionId", "SeqVersionIncreasing"])
+    ctx.work = work
+    for v in ctx.viol:
+        v["family"] = "seq"
+    seq_eval = ctx.cov.pop("evaluations", 0)
+    ctx.viol = viol_sched + list(ctx.viol)
+    merged = dict(ctx.cov.get("predicates", {}))
+    merged.update(pr_sched)
+    ctx.cov["predicates"] = merged
+    ctx.cov["evaluations"] = len(calls) + seq_eval
+    ctx.cov["sequential_histories"] = len(seq["beh"])
+    ctx.cov["traces_validated_against_impl"] = len(beh) + len(seq["beh"])
+    sched_replay = lambda v: {"behaviour": beh[v["trace"]], "recorded": bytrace.get(v["trace"], [])}  # noqa: E731
     return vlib.finish(
         ctx, "model_checking",
         rule="schedules = edge cover + seeded maximal walks of the TLC state graphs of Origin.tla (3 callers, with and without the "
              "enclosing lock), driven with gates inside updateSDPOrigin under concurrent CreateOffer/CreateAnswer on one "
              "PeerConnection in have-remote-offer; callers that wait for pc.mu are skipped until they arrive; plus free-running "
-             "runs with 2-4 callers and 1-4 calls each; distinct = distinct schedules",
+             "runs with 2-4 callers and 1-4 calls each; plus sequential histories: the SDP family (PeerConn.tla histories, "
+             "synthetic offers answered provisionally and then finally, unapplied offers) under Unified Plan, Plan B and "
+             "fallback semantics, where every generated description must carry the endpoint's session id and a version "
+             "above the previous one; distinct = distinct schedules",
         distinct_nontrivial=len(distinct), exhaustive=False,
-        replay_of=lambda v: {"behaviour": beh[v["trace"]], "recorded": bytrace.get(v["trace"], [])})
+        replay_of=lambda v: seq["replay_of"](v) if v.get("family") == "seq" else sched_replay(v))
